@@ -490,6 +490,11 @@ func (n *net) byzAct() {
 				}
 			}
 		case gpbft.PREPARE_PHASE, gpbft.CONVERGE_PHASE:
+			if phase == gpbft.PREPARE_PHASE && n.rng.Intn(8) == 0 {
+				// validation has no value rule for PREPARE: a PREPARE for bottom is admitted
+				p.Value = &gpbft.ECChain{}
+				val = p.Value
+			}
 			if round == 0 {
 				if phase == gpbft.CONVERGE_PHASE {
 					continue
